@@ -1,3 +1,137 @@
-(* C03 — placeholder while the proofs are being written *)
+(* C03 — Merkle inclusion and consistency proofs are complete and sound (RFC 6962).
+   Property theorems only; each is closed by [exact] of a lemma proved in Tlog/Proofs*.v.
+   All statements are parametric in the hash functions (no assumption on them).
+   Model: Tlog/Index.v, Tlog/Tree.v (tlog.go 317-605); specification: Tlog/Spec6962.v
+   (mth, path = PATH, proof = PROOF of RFC 6962 2.1) and Tlog/Rfc9162.v (the iterative
+   verification algorithms of RFC 9162 2.1.3.2 / 2.1.4.2).
+   Guard: sizes up to 2^62 (Go uses int64; the model is unbounded).
+
+   PARTIAL.  Not proved here (validated by the correspondence run only: the extracted
+   model of CheckRecord/CheckTree and the extracted RFC 9162 transcription both reproduce the
+   implementation's verdict on every honest and mutated tuple, and the Go oracle compares
+   the implementation with an independent Go transcription of the RFC algorithms):
+
+     check_record_iff_rfc9162 : forall p t th n h, 0 <= t <= 2^62 ->
+        (check_record node_hash p t th n h = Ok tt
+         <-> rfc_verify_inclusion node_hash p t th n h = true)
+     check_tree_iff_rfc9162 : forall p t th n h, 0 <= t <= 2^62 ->
+        (check_tree node_hash p t th n h = Ok tt
+         <-> rfc_verify_consistency node_hash p t th n h = true)
+
+   What is proved instead: soundness in its semantic form (C03_check_record_sound,
+   C03_check_tree_sound: what is accepted under the true tree hash is true, or a concrete
+   collision of the node hash is exhibited), which is the property the RFC algorithms are
+   themselves meant to have; completeness; exactness of the generated proofs; no panics. *)
 From Verif.Base Require Import Bytes.
-From Verif.Tlog Require Import Index Tree Rfc9162.
+From Verif.Tlog Require Import Index Tree Spec6962 Rfc9162 ProofsIndex ProofsSpec ProofsTree ProofsStore ProofsRecord ProofsPath ProofsConsistency.
+
+(* ---- the specification functions are the RFC 6962 recursions ---- *)
+Theorem C03_path_is_rfc6962 : forall (node_hash : hash -> hash -> hash),
+  (forall m x, path node_hash m [x] = []) /\
+  (forall m l, 2 <= zlen l ->
+     let k := split_point (zlen l) in
+     path node_hash m l =
+     if m <? k
+     then path node_hash m (firstn (Z.to_nat k) l) ++ [mth node_hash (skipn (Z.to_nat k) l)]
+     else path node_hash (m - k) (skipn (Z.to_nat k) l) ++ [mth node_hash (firstn (Z.to_nat k) l)]).
+Proof. intros node_hash. split; [reflexivity|exact (path_split node_hash)]. Qed.
+Print Assumptions C03_path_is_rfc6962.
+
+Theorem C03_proof_is_rfc6962 : forall (node_hash : hash -> hash -> hash),
+  (forall m l, proof node_hash m l = subproof node_hash m l true) /\
+  (forall l b, subproof node_hash (zlen l) l b = if b then [] else [mth node_hash l]) /\
+  (forall m l b, 0 < m < zlen l ->
+     let k := split_point (zlen l) in
+     subproof node_hash m l b =
+     if m <=? k
+     then subproof node_hash m (firstn (Z.to_nat k) l) b ++ [mth node_hash (skipn (Z.to_nat k) l)]
+     else subproof node_hash (m - k) (skipn (Z.to_nat k) l) false ++ [mth node_hash (firstn (Z.to_nat k) l)]).
+Proof.
+  intros node_hash. split; [reflexivity|]. split; [exact (subproof_same node_hash)|exact (subproof_split node_hash)].
+Qed.
+Print Assumptions C03_proof_is_rfc6962.
+
+(* ---- never a crash: every argument tuple gives Ok or an error ---- *)
+Theorem C03_check_never_panics : forall (node_hash : hash -> hash -> hash) p t th n h,
+  t <= 2 ^ 63 ->
+  check_record node_hash p t th n h <> Panic /\ check_tree node_hash p t th n h <> Panic.
+Proof. exact check_never_panics. Qed.
+Print Assumptions C03_check_never_panics.
+
+Theorem C03_out_of_range_is_an_error : forall (node_hash : hash -> hash -> hash) p t th n h,
+  (t < 0 \/ n < 0 \/ t <= n -> check_record node_hash p t th n h = Err EInvalidInputs) /\
+  (t < 1 \/ n < 1 \/ t < n -> check_tree node_hash p t th n h = Err EInvalidInputs).
+Proof.
+  intros. split; [apply check_record_invalid|apply check_tree_invalid].
+Qed.
+Print Assumptions C03_out_of_range_is_an_error.
+
+(* ---- the proofs produced are exactly the RFC 6962 ones (and producing them never fails or panics) ---- *)
+Theorem C03_prove_record_is_PATH :
+  forall (leaf_hash : str -> hash) (node_hash : hash -> hash -> hash) recs t n,
+  zlen recs < 2 ^ 62 -> 0 <= n < t -> t <= zlen recs ->
+  prove_record node_hash t n (reader_of (store_of leaf_hash node_hash recs))
+  = Ok (path node_hash n (map leaf_hash (firstn (Z.to_nat t) recs))).
+Proof. exact prove_record_is_PATH. Qed.
+Print Assumptions C03_prove_record_is_PATH.
+
+Theorem C03_prove_tree_is_PROOF :
+  forall (leaf_hash : str -> hash) (node_hash : hash -> hash -> hash) recs t n,
+  zlen recs < 2 ^ 62 -> 1 <= n <= t -> t <= zlen recs ->
+  prove_tree node_hash t n (reader_of (store_of leaf_hash node_hash recs))
+  = Ok (proof node_hash n (map leaf_hash (firstn (Z.to_nat t) recs))).
+Proof. exact prove_tree_is_PROOF. Qed.
+Print Assumptions C03_prove_tree_is_PROOF.
+
+(* ---- completeness: the checkers accept the RFC 6962 proofs ---- *)
+Theorem C03_check_record_complete : forall (node_hash : hash -> hash -> hash) L n d,
+  zlen L <= 2 ^ 62 -> 0 <= n < zlen L ->
+  check_record node_hash (path node_hash n L) (zlen L) (mth node_hash L) n (nth (Z.to_nat n) L d) = Ok tt.
+Proof. exact check_record_complete. Qed.
+Print Assumptions C03_check_record_complete.
+
+Theorem C03_check_tree_complete : forall (node_hash : hash -> hash -> hash) L n,
+  zlen L <= 2 ^ 62 -> 1 <= n <= zlen L ->
+  check_tree node_hash (proof node_hash n L) (zlen L) (mth node_hash L) n
+             (mth node_hash (firstn (Z.to_nat n) L)) = Ok tt.
+Proof. exact check_tree_complete. Qed.
+Print Assumptions C03_check_tree_complete.
+
+(* ---- soundness, collision-explicit: for ANY proof p, index and hash ---- *)
+Theorem C03_check_record_sound : forall (node_hash : hash -> hash -> hash) L p n h d,
+  zlen L <= 2 ^ 62 ->
+  check_record node_hash p (zlen L) (mth node_hash L) n h = Ok tt ->
+  0 <= n < zlen L /\
+  (h = nth (Z.to_nat n) L d \/
+   exists a b c e : hash, (a, b) <> (c, e) /\ node_hash a b = node_hash c e).
+Proof. exact check_record_sound. Qed.
+Print Assumptions C03_check_record_sound.
+
+Theorem C03_check_tree_sound : forall (node_hash : hash -> hash -> hash) L p n h,
+  zlen L <= 2 ^ 62 ->
+  check_tree node_hash p (zlen L) (mth node_hash L) n h = Ok tt ->
+  1 <= n <= zlen L /\
+  (h = mth node_hash (firstn (Z.to_nat n) L) \/
+   exists a b c e : hash, (a, b) <> (c, e) /\ node_hash a b = node_hash c e).
+Proof. exact check_tree_sound. Qed.
+Print Assumptions C03_check_tree_sound.
+
+(* ---- non-vacuity: a concrete log with a toy (injective) hash ---- *)
+Definition ex_leaf (d : str) : hash := 76 :: d.
+Definition ex_node (a b : hash) : hash := 40 :: a ++ b ++ [41].
+Definition ex_recs : list str := [B "a"; B "b"; B "c"; B "d"; B "e"; B "f"; B "g"].
+Definition ex_L : list hash := map ex_leaf ex_recs.
+
+Example C03_example :
+  prove_record ex_node 7 4 (reader_of (store_of ex_leaf ex_node ex_recs))
+    = Ok [B "Lf"; B "Lg"; B "((LaLb)(LcLd))"] /\
+  check_record ex_node [B "Lf"; B "Lg"; B "((LaLb)(LcLd))"] 7 (mth ex_node ex_L) 4 (B "Le") = Ok tt /\
+  rfc_verify_inclusion ex_node [B "Lf"; B "Lg"; B "((LaLb)(LcLd))"] 7 (mth ex_node ex_L) 4 (B "Le") = true /\
+  check_record ex_node [B "Lg"; B "Lf"; B "((LaLb)(LcLd))"] 7 (mth ex_node ex_L) 4 (B "Le") = Err EProofFailed /\
+  prove_tree ex_node 7 3 (reader_of (store_of ex_leaf ex_node ex_recs))
+    = Ok [B "Lc"; B "Ld"; B "(LaLb)"; B "((LeLf)Lg)"] /\
+  check_tree ex_node [B "Lc"; B "Ld"; B "(LaLb)"; B "((LeLf)Lg)"] 7 (mth ex_node ex_L) 3
+             (mth ex_node (firstn 3 ex_L)) = Ok tt /\
+  rfc_verify_consistency ex_node [B "Lc"; B "Ld"; B "(LaLb)"; B "((LeLf)Lg)"] 7 (mth ex_node ex_L) 3
+             (mth ex_node (firstn 3 ex_L)) = true.
+Proof. vm_compute. repeat split; reflexivity. Qed.
